@@ -75,6 +75,11 @@ def perturb(rng, ns):
         else:
             p[b] = 1
         out.append(('inapplicable:' + b, p))
+        if b != 'twopl':
+            # ... also when its value happens to be what the option would default to (0 / 0.0)
+            p0 = dict(ns)
+            p0[b] = 0.0 if b == 't2' else 0
+            out.append(('inapplicable-zero:' + b, p0))
     n2 = ns['n1'] if mp == 'sm' else ns['n2']
 
     def bad(name, **kw):
